@@ -90,7 +90,7 @@ func runSaveChild(base string, idx int, c SaveCase) remains {
 	}
 	spec, _ := json.Marshal(SaveSpec{Path: path, PskLen: c.PskLen, Change: c.Change, Mode: c.Mode, Limit: c.Limit})
 	cmd := exec.Command(selfExe(), "child-save")
-	cmd.Env = append(os.Environ(), "C20_SPEC="+string(spec))
+	cmd.Env = append(os.Environ(), "C20_SPEC="+string(spec), "GOMAXPROCS=2")
 	var out, errb bytes.Buffer
 	cmd.Stdout, cmd.Stderr = &out, &errb
 	err := cmd.Run()
